@@ -125,12 +125,12 @@ CHECKS = {
         "engine": "c19",
         "level": "fault_enumeration",
         "rule": "one evaluation = one Solve of a circuit delegating a batch of gate evaluations to GKR under a plan of faulted answers of the GKR solving hint (exported values) and proving hint (sum-check proof elements), judged by direct evaluation of the same gates on the imported inputs; "
-                "a case = (topology in {mul; add+mul with fan-out; mul-mul-sub; neg-add-mul}, 2..16 instances, field, builder, inputs, fault tape)",
+                "a case = (topology in {mul; add+mul with fan-out; mul-mul-sub; neg-add-mul}, 2..16 instances; series dependencies between instances (swap, chains of three and four); the gkr-poseidon2 compression wrapper on BLS12-377 with the challenge-binding probe (a changed claimed output must change the committed values that seed the verifier); field, builder, inputs, fault tape)",
         "quick": {"runs": 480, "budget_s": 220, "selftest_runs": 3, "params": {"faults": 12}},
         "thorough": {"runs": 16000, "budget_s": 2700, "selftest_runs": 4, "params": {"faults": 32}},
         "expect_probes": ["faulty_answer_rejected", "perturb-output", "misdirected", "replayed", "swap-outputs", "hint-error"],
         "components": {"real": REAL + ["hint wrapper hook (constraint/verifhook, -tags verif): reaches the GKR hints the solver installs itself"], "stub": ["hint answers under fault (byzantine solver oracle)", "commitment challenge in solver-only runs (hash of the committed values)"]},
-        "assumptions": ["only the forgery clause is decided (the fault-free equality with direct evaluation is the baseline of the same runs)", "Fiat-Shamir hash: mimc; series dependencies between instances are not generated"],
+        "assumptions": ["only the forgery clause is decided (the fault-free equality with direct evaluation is the baseline of the same runs)", "Fiat-Shamir hash: mimc"],
     },
     "C13": {
         "engine": "c13",
@@ -189,12 +189,12 @@ CHECKS = {
     "C10": {
         "engine": "c10",
         "level": "exploration",
-        "rule": "one evaluation = one API call (Solve/Prove/Verify/IsSolved) compared with the solo model; a case = (backend, curve, generated circuit, "
+        "rule": "one evaluation = one API call (Solve/Prove/Verify/IsSolved) compared with the solo model, or (registry batch) one operation of a hint-registry history (RegisterHint with overlapping lists / GetRegisteredHint / GetRegisteredHints by 2-4 client tasks under the scheduler) checked for linearizability against a grow-only set with porcupine (10 s budget, Unknown is never reported); a case = (backend, curve, generated circuit, "
                 "per-client call sequences, shared option slice, background compile/register); distinct_nontrivial counts distinct case descriptors "
                 "with >=2 concurrent clients",
-        "quick": {"runs": 400, "budget_s": 150, "race_runs": 64, "race_budget_s": 80, "selftest_runs": 5, "params": {"slots": 40}},
-        "thorough": {"runs": 20000, "budget_s": 2400, "race_runs": 1600, "race_budget_s": 1500, "selftest_runs": 8, "params": {"slots": 64}},
-        "expect_probes": ["system_with_lookup", "prove_with_commitment", "result_bytes_compared"],
+        "quick": {"runs": 400, "budget_s": 150, "race_runs": 64, "race_budget_s": 80, "selftest_runs": 5, "params": {"slots": 40}, "extra_batches": [{"tag": "registry", "runs": 640, "budget_s": 60, "params": {"mode": "registry"}, "maxviol": 2}]},
+        "thorough": {"runs": 20000, "budget_s": 2400, "race_runs": 1600, "race_budget_s": 1500, "selftest_runs": 8, "params": {"slots": 64}, "extra_batches": [{"tag": "registry", "runs": 1280, "budget_s": 120, "params": {"mode": "registry"}, "maxviol": 2}]},
+        "expect_probes": ["system_with_lookup", "prove_with_commitment", "result_bytes_compared", "registry_history_linearizable"],
         "components": {"real": REAL, "stub": ["entropy source (keyed PRF behind crypto/rand.Reader)", "goroutine scheduler (seeded token scheduler; real goroutines used as coroutines)", "map iteration order (canonical order + tape permutation)"]},
         "assumptions": ["gnark-crypto internals are race-free and schedule independent (they are not instrumented)", "interleavings are explored at the granularity of the inserted yield points; the -race tier closes the gap between two yields", "solo model: the same call executed alone under the default schedule with the same keyed entropy"],
     },
